@@ -18,7 +18,7 @@ PROP = dict(
     trusted_base=[
         "hand model lean/TongoModel/ClientSM.lean; tie = (i) translator ClientOrder (go/ast): operation order of Request, "
         "registerCallback, unregisterCallback, processQueryAnswer, Client.reader, Connection.Send, Connection.reconnect regenerated "
-        "into TongoGen/ClientOrder.lean with 8 decide-d obligations on every run; (ii) histories of real executions accepted by "
+        "into TongoGen/ClientOrder.lean with decide-d obligations on every run (incl. every_socket_write_is_under_mu: EVERY call site of encryptedConn.send in connection.go is inside a Connection.mu critical section, except the two authentication steps); (ii) histories of real executions accepted by "
         "checkHistory; (iii) predicted result classes of deterministic scripts",
         "history checker ClientSM.checkHistory (executable, NOT verified): inserts the hidden actions (register/pickConn/send, deliver/"
         "chanSend, recv/timeout/unregister, socket death, reconnect steps incl. stale spawned reconnects) and checks each is enabled and "
